@@ -68,19 +68,19 @@ def runModel (key : String) (s : List Nat) (t : List String) : Option String :=
   let a := tagArr s
   if reduceOps.contains key then
     match t with
-    | [ax] => do let ax ← parseInt? ax; some (cls (a.reduceAxis 0 (0 : Int) (some ax) (fun _ => .ok (Arr.single 0))))
+    | ax :: _ => do let ax ← parseInt? ax; some (cls (a.reduceAxis 0 (0 : Int) (some ax) (fun _ => .ok (Arr.single 0))))
     | _ => none
   else if scanOps.contains key then
     match t with
-    | [ax] => do let ax ← parseInt? ax; some (cls (a.scanAxis 0 (0 : Int) (some ax) (fun l => .ok l)))
+    | ax :: _ => do let ax ← parseInt? ax; some (cls (a.scanAxis 0 (0 : Int) (some ax) (fun l => .ok l)))
     | _ => none
   else if countOps.contains key then
     match t with
-    | [ax] => do let ax ← parseInt? ax; some (cls (a.countAxis 0 (0 : Int) (some ax) none (fun _ _ => .ok (Arr.single 0))))
+    | ax :: _ => do let ax ← parseInt? ax; some (cls (a.countAxis 0 (0 : Int) (some ax) none (fun _ _ => .ok (Arr.single 0))))
     | _ => none
   else if alongOps.contains key then
     match t with
-    | [ax] => do let ax ← parseInt? ax; some (cls (alongId a ax))
+    | ax :: _ => do let ax ← parseInt? ax; some (cls (alongId a ax))
     | _ => none
   else match key, t with
   | "ArrayAxis.transpose", [ax] => do let ax ← optIntList? ax; some (cls (a.transpose 0 ax))
@@ -165,7 +165,11 @@ def coverageLine (wanted : List (List Char)) (csv : String) : String :=
   let (missing, extra) := coverage wanted covered
   s!"ok covered={covered.length - extra.length}/{wanted.length} missing={showKeys missing} extra={showKeys extra}"
 
-def handleFull (parts : List String) (args : List String) : Option String :=
+/-- class tokens of the robustness streams carry suffixes (`m-z`, `m-u8p`, `pa-strr` …) that only select the receiver /
+element type on the Rust side, or mark a zero-size receiver; the model answer is that of the base class -/
+def baseCls (c : String) : String := (c.splitOn "-").headD c
+
+def handleBase (parts : List String) (args : List String) : Option String :=
   match parts, args with
   | ["C09", "inv", "result_impls"], [csv] => some (coverageLine resultImplKeys csv)
   | ["C09", "inv", "fallible"], [csv] => some (coverageLine fallibleKeys csv)
@@ -181,6 +185,7 @@ def handleFull (parts : List String) (args : List String) : Option String :=
     let s ← unhex? h
     some (showParsed (if fl == "string" then parseString lowerRust p s else parseStr lowerRust p s))
   | ["C09", "p", tr, m], [_, e] => propagate (tr ++ "." ++ m) e
+  | ["C09", "pa", tr, m], _ :: e :: _ => propagate (tr ++ "." ++ m) e
   | ["C09", "m", tr, m], s :: t => do let s ← parseNatList? s; runModel (tr ++ "." ++ m) s t
   | ["C09", "b", _, _], s :: t => do let s ← parseNatList? s; some (runBroadcast s t)
   | ["C09", "u", _, _], _ => some "err class-only"
@@ -188,6 +193,11 @@ def handleFull (parts : List String) (args : List String) : Option String :=
   | ["C09", "n", _, _], _ => some "total"
   | ["C09", "t", _, _], _ => some "total"
   | _, _ => none
+
+def handleFull (parts : List String) (args : List String) : Option String :=
+  match parts with
+  | "C09" :: c :: rest => handleBase ("C09" :: baseCls c :: rest) args
+  | _ => handleBase parts args
 
 /-- `Proto.dispatchWith` hands over the full first token when it has more than one dot -/
 def handle (op : String) (args : List String) : Option String := handleFull (op.splitOn ".") args
